@@ -177,6 +177,17 @@ def run_check(prop, tier, seed):
         print(f"HARNESS_ERROR property={prop} nondeterministic fingerprints for runs {mismatched}")
         return 2
 
+    # 3b. engine-specific extra explorations (real hash seeds, real pool cross-check, cross-process
+    # restarts); they may add violations of their own
+    extra_cov = {}
+    extra = getattr(engine, "extra_coverage", None)
+    if extra is not None:
+        extra_cov = extra(prop, seed, tier, total)
+        if extra_cov.pop("_mismatch", None):
+            print(f"HARNESS_ERROR property={prop} stub cross-check disagrees with the real mechanism: {json.dumps(extra_cov)[:800]}")
+            return 2
+        total["violations"].extend(extra_cov.pop("_violations", []))
+
     # 4. violations: group by signature, suppress known ones, shrink, write replay, verify replay
     by_sig: dict[str, list] = {}
     for item in total["violations"]:
@@ -256,13 +267,7 @@ def run_check(prop, tier, seed):
         "notes": notes,
         "autocarver_src": os.environ.get("AUTOCARVER_SRC", "/repo"),
     }
-    extra = getattr(engine, "extra_coverage", None)
-    if extra is not None:
-        more = extra(prop, seed, tier, total)
-        if more.pop("_mismatch", None):
-            print(f"HARNESS_ERROR property={prop} stub cross-check disagrees with the real mechanism: {json.dumps(more)[:800]}")
-            return 2
-        coverage.update(more)
+    coverage.update(extra_cov)
     batch.write_evidence(
         prop, tier, seed, plan["level"], coverage, plan["assumptions"], wall, len(violation_lines)
     )
